@@ -212,7 +212,8 @@ class Check:
         evdir = os.environ.get("VERIF_EVIDENCE_DIR") or os.path.join(VERIF, "evidence")
         os.makedirs(os.path.join(evdir, "replay"), exist_ok=True)
         import glob as _glob
-        for old in _glob.glob(os.path.join(evdir, "replay", f"{self.pid}-*.json")):
+        for old in ([] if getattr(self, "is_replay", False) else
+                    _glob.glob(os.path.join(evdir, "replay", f"{self.pid}-*.json"))):
             try:
                 os.remove(old)       # replay files of earlier runs of this property
             except OSError:
@@ -271,7 +272,9 @@ class Check:
             "violations": n_real,
             "known_findings_hit": [m["what"] for m, _ in self.known],
         }
-        with open(os.path.join(evdir, f"{self.pid}.json"), "w") as f:
+        # a --replay run re-executes one stored input: it must not overwrite the evidence of the last full run
+        evname = f"{self.pid}.json" if not getattr(self, "is_replay", False) else os.path.join("replay", f"replayrun-{self.pid}.json")
+        with open(os.path.join(evdir, evname), "w") as f:
             json.dump(ev, f, indent=1, default=str)
         for ln in lines[:20]:
             print(ln, flush=True)
